@@ -42,6 +42,19 @@ pub fn run_op2(op: &str, a: &[&str]) -> String {
                 None => "panic".to_string(),
             }
         }
+        // cmp7 a1..a7 b1..b7 : the comparison operators of MadeHand on two evaluated hands
+        "cmp7" => {
+            let mk = |o: usize| -> [Card; 7] { [card_of(n(o)), card_of(n(o + 1)), card_of(n(o + 2)), card_of(n(o + 3)), card_of(n(o + 4)), card_of(n(o + 5)), card_of(n(o + 6))] };
+            match guarded(|| {
+                let a: MadeHand = mk(0).into();
+                let b: MadeHand = mk(7).into();
+                let ord = |o: std::cmp::Ordering| match o { std::cmp::Ordering::Less => "lt", std::cmp::Ordering::Equal => "eq", std::cmp::Ordering::Greater => "gt" };
+                format!("ok cmp={} partial={} eq={} lt={}", ord(a.cmp(&b)), a.partial_cmp(&b).map(ord).unwrap_or("none"), (a == b) as u8, (a < b) as u8)
+            }) {
+                Some(s) => s,
+                None => "panic".to_string(),
+            }
+        }
         // eval7_block a b c : all seven-card sets whose three lowest card codes are a < b < c, each presented in an
         // order chosen by its card sum; digest of the power indexes and a histogram of the reported categories
         "eval7_block" => {
